@@ -3,45 +3,7 @@
    Definitions only. *)
 From FV Require Import Base AddrRange RouteMap Graph Desc Build Netlist Compile Routing.
 
-(* ---------------------------------------------------------------- names *)
-Definition is_lower (n : nat) : bool := (Nat.leb 97 n && Nat.leb n 122)%bool.
-Definition is_upper (n : nat) : bool := (Nat.leb 65 n && Nat.leb n 90)%bool.
-Fixpoint lower (s : string) : string :=
-  match s with
-  | EmptyString => EmptyString
-  | String c r => let n := nat_of_ascii c in String (if is_upper n then ascii_of_nat (n + 32) else c) (lower r)
-  end.
-(* str.capitalize(): first character upper-cased, the rest lower-cased *)
-Definition py_capitalize (s : string) : string :=
-  match s with
-  | EmptyString => EmptyString
-  | String c r => let n := nat_of_ascii c in String (if is_lower n then ascii_of_nat (n - 32) else c) (lower r)
-  end.
-Fixpoint all_digits (s : string) : bool :=
-  match s with
-  | EmptyString => true
-  | String c r => let n := nat_of_ascii c in (Nat.leb 48 n && Nat.leb n 57)%bool && all_digits r
-  end.
-Definition is_digit_str (s : string) : bool := match s with EmptyString => false | _ => all_digits s end.
-
-Fixpoint split_us (s : string) (cur : string) : list string :=
-  match s with
-  | EmptyString => [str_rev cur]
-  | String c r => if Ascii.eqb c "_"%char then str_rev cur :: split_us r EmptyString
-                  else split_us r (String c cur)
-  end.
-(* snake_to_camel (after the fix that keeps '_' between two numeric pieces) *)
-Fixpoint camel_parts (prev : option string) (parts : list string) : string :=
-  match parts with
-  | [] => EmptyString
-  | p :: rest =>
-      (match prev with
-       | Some q => if is_digit_str q && is_digit_str p then "_" else ""
-       | None => ""
-       end) +++ py_capitalize p +++ camel_parts (Some p) rest
-  end.
-Definition snake_to_camel (s : string) : string := camel_parts None (split_us s EmptyString).
-
+(* ---------------------------------------------------------------- names (snake_to_camel is in Routing.v) *)
 (* upper(): only ASCII letters matter *)
 Fixpoint upper_str (s : string) : string :=
   match s with
